@@ -244,8 +244,10 @@ func (m *Machine) loop(base int) *PSError {
 			m.Ambiguous = "step limit"
 			return perr("timeout", "step limit")
 		}
-		if len(m.OS) > MaxOperandStack {
-			m.Ambiguous = "operand stack limit"
+		if len(m.OS) > MaxOperandStack-50 {
+			// where exactly an implementation notices the overflow is not
+			// specified: runs that come near the limit are not compared
+			m.Ambiguous = "operand stack near its limit"
 			return perr("stackoverflow", "operand stack")
 		}
 		if len(m.es) > 90 {
